@@ -190,6 +190,15 @@ impl Ids {
                 }
                 self.digest.str(&s);
                 self.check_object(w, b, &back, "decoded from bytes")?;
+                // ... and the id as a third replica renders it (its own actor-index hint), through bytes, used on b
+                let x = (a + 1 + k) % n;
+                if x != b && w.present(x, id) && w.reps[x].isolated.is_none() && w.reps[x].doc.pending_ops() == 0 {
+                    if let Ok((rid, _)) = w.reps[x].doc.import(&s) {
+                        w.stats.bump("probe.id_rendered_by_other_replica");
+                        let via = ObjId::try_from(rid.to_bytes().as_slice()).map_err(|e| fail("objid_bytes_roundtrip", "objid-bytes-undecodable", format!("{rid}: {e}")))?;
+                        self.check_object(w, b, &via, "as handed out by a third replica, through bytes")?;
+                    }
+                }
             } else {
                 // C30: every id, every replica
                 for r in 0..n {
@@ -197,6 +206,20 @@ impl Ids {
                         continue;
                     }
                     self.check_object(w, r, id, "as returned by the API")?;
+                }
+                // the same id as another replica that contains the object hands it out: an ExId carries the actor's index in
+                // the table of the replica that produced it, and tables differ in size and order between replicas
+                let x = (k + sel as usize) % n;
+                if w.present(x, id) && w.reps[x].isolated.is_none() && w.reps[x].doc.pending_ops() == 0 {
+                    if let Ok((rid, _)) = w.reps[x].doc.import(&id.to_string()) {
+                        w.stats.bump("probe.id_rendered_by_other_replica");
+                        for r in 0..n {
+                            if r == x || w.reps[r].isolated.is_some() || w.reps[r].doc.pending_ops() > 0 {
+                                continue;
+                            }
+                            self.check_object(w, r, &rid, "as handed out by another replica")?;
+                        }
+                    }
                 }
                 self.digest.str(&id.to_string());
             }
